@@ -48,6 +48,7 @@ def mutate_subject(env, label, sobj, msubj, rng):
 
 def _run(env):
     ctx, d, pgpy = env.ctx, env.d, env.pgpy
+    S.check_pins(ctx, S.sig_pins(env.pgpy))
     rng = ctx.rng
     names = ['ed25519', 'p256', 'rsa2048'] if ctx.quick else ['ed25519', 'ed25519b', 'p256', 'p384', 'p521', 'secp256k1', 'rsa2048', 'rsa3072', 'dsa2048']
     for ki, name in enumerate(names):
